@@ -53,3 +53,90 @@ Example C03_example :
                   w_failed := [0] |} in
   sys_wf sy = true /\ check_witness sy w = true /\ check_witness sy w_bad = false.
 Proof. vm_compute. repeat split. Qed.
+
+(** ** the witness extraction itself ([get_witness] of bmc.rs)
+
+    Model/BmcWit.v: [bmc_model_w] is the loop of bmc.rs with the encoding of /repo ([init_at3], then
+    [unroll Fixed]) over an abstract solver that answers a query with [Some model] ("sat") or [None];
+    on "sat" at step [k] it returns [WFail k (get_witness ..)]: the values the model - extended by the
+    definitions of the script, as (get-value) does - gives to the step-[k] symbols of the bad states
+    ([failed]), to the step-0 symbols of the states ([init]) and to the step symbols of the inputs at
+    the steps [0..k] ([inputs]).
+
+    For EVERY solver whose "sat" answers come with a model of the query ([is_model]: a well-formed
+    valuation of the declared symbols under which all assertions and assumptions hold), every system
+    in the domain of [C04_script3_wf] with pairwise distinct inputs, every bound and both checking
+    modes: a returned witness is accepted by [check_witness] and has [k + 1] steps ... *)
+From Patronus Require Import Encoding EncodingOrder Bmc BmcWit BmcProofs BmcWitProofs.
+Theorem C03_bmc_witness_accepted :
+  forall (solver_model : list cmd -> list expr -> list expr -> option env),
+    (forall sc asserts assumps sigma0,
+        solver_model sc asserts assumps = Some sigma0 -> is_model sc asserts assumps sigma0) ->
+    forall (sy : sys) (nm : expr -> string) (k_max : nat) (individually : bool) (k : N) (w : witness),
+      sys_wf sy = true -> nodup_exprs (s_inputs sy) = true ->
+      names_ok (enc_new sy nm) = true -> init_deps_acyclic sy ->
+      bmc_model_w solver_model sy nm individually k_max = WFail k w ->
+      check_witness sy w = true /\
+      exists j, k = N.of_nat j /\ (j <= k_max)%nat /\ length (w_inputs w) = S j.
+Proof. exact bmc_witness_ok. Qed.
+Print Assumptions C03_bmc_witness_accepted.
+
+(** ... hence it is a real counterexample: its step-0 valuation is initial, and for some choice of the
+    values of the states without next function the run through its inputs has exactly [k] steps
+    ([k <= k_max]), satisfies all constraints at every step and ends in a bad state - the bad states
+    that hold there are exactly the reported ones. *)
+Theorem C03_bmc_witness_is_execution :
+  forall (solver_model : list cmd -> list expr -> list expr -> option env),
+    (forall sc asserts assumps sigma0,
+        solver_model sc asserts assumps = Some sigma0 -> is_model sc asserts assumps sigma0) ->
+    forall (sy : sys) (nm : expr -> string) (k_max : nat) (individually : bool) (k : N) (w : witness),
+      sys_wf sy = true -> nodup_exprs (s_inputs sy) = true ->
+      names_ok (enc_new sy nm) = true -> init_deps_acyclic sy ->
+      bmc_model_w solver_model sy nm individually k_max = WFail k w ->
+      witness_ok sy w /\
+      exists frees : list env,
+        is_initial_r sy (witness_env0 sy w) /\
+        N.of_nat (length frees) = k /\ (length frees <= k_max)%nat /\
+        forallb (constraints_hold sy) (run_from sy (witness_env0 sy w) frees) = true /\
+        some_bad sy (last (run_from sy (witness_env0 sy w) frees) env0) = true /\
+        bads_exactly sy (last (run_from sy (witness_env0 sy w) frees) env0) (w_failed w) = true.
+Proof. exact bmc_witness_is_execution. Qed.
+Print Assumptions C03_bmc_witness_is_execution.
+
+(** Non-vacuity: the system of the (repaired) finding init-reads-later-state (state s init t+1 next s;
+    state t next t; bad s == 3) satisfies the hypotheses (Props/C04.v,
+    [C04_script3_hypotheses_satisfiable]); [checking_solver cand] answers "sat" with [cand] exactly
+    when [cand] is a model of the query - it satisfies the hypothesis on the solver for every
+    well-formed [cand]; with t = 2 the loop returns, in both modes, the witness s = 3, t = 2 at step 0. *)
+Example C03_solver_hypothesis_satisfiable :
+  forall cand, env_wf cand -> forall sc asserts assumps sigma0,
+    checking_solver cand sc asserts assumps = Some sigma0 -> is_model sc asserts assumps sigma0.
+Proof. exact checking_solver_sound. Qed.
+
+Example C03_bmc_witness_example :
+  bmc_model_w (checking_solver ex3_cand) EncodingExamples.ex3_sys EncodingExamples.ex_nm false 2 = WFail 0 ex3_witness /\
+  bmc_model_w (checking_solver ex3_cand) EncodingExamples.ex3_sys EncodingExamples.ex_nm true 2 = WFail 0 ex3_witness /\
+  check_witness EncodingExamples.ex3_sys ex3_witness = true /\
+  nodup_exprs (s_inputs EncodingExamples.ex3_sys) = true.
+Proof. exact ex3_bmc_witness. Qed.
+
+Example C03_example_candidate_wf : env_wf ex3_cand.
+Proof. exact ex3_cand_wf. Qed.
+
+(** With a solver that is also complete ("unsat" only when the query has no model) the loop that
+    returns witnesses is the loop of C02 ([Proofs/BmcWitProofs.v], [loop_w_forget]), so the step of a
+    returned witness is the LEAST depth at which a bad state is reachable ([C02_bmc_model3_exact]). *)
+Theorem C03_bmc_witness_shortest :
+  forall (solver_model : list cmd -> list expr -> list expr -> option env),
+    (forall sc asserts assumps,
+        match solver_model sc asserts assumps with
+        | Some sigma0 => is_model sc asserts assumps sigma0
+        | None => ~ exists sigma0, is_model sc asserts assumps sigma0
+        end) ->
+    forall (sy : sys) (nm : expr -> string) (k_max : nat) (individually : bool) (k : N) (w : witness),
+      sys_wf sy = true -> nodup_exprs (s_inputs sy) = true ->
+      names_ok (enc_new sy nm) = true -> init_deps_acyclic sy ->
+      bmc_model_w solver_model sy nm individually k_max = WFail k w ->
+      exists j, k = N.of_nat j /\ (j <= k_max)%nat /\ reach_at sy j /\ forall m, (m < j)%nat -> ~ reach_at sy m.
+Proof. exact bmc_witness_shortest. Qed.
+Print Assumptions C03_bmc_witness_shortest.
